@@ -34,10 +34,40 @@ def run_shapes(ctx, name, shapes, body, timeout_ms=None, max_paths=4000):
                                    status="proved" if not raised else "refuted", solver="native", seconds=0.0,
                                    expect="proved", detail="; ".join(repr(r) for r in raised[:2]) +
                                    ("\n" + raised[0].tb[-900:] if raised else "")))
+        _replay_models(ex, body, shape, tag)
         ctx.absorb(ex)
         n_ok += 1
     ctx.exhaustive = False
     return n_ok
+
+
+def _replay_models(ex, body, shape, tag, limit=3):
+    """concrete replay of counter-models: the body runs once more with every symbol replaced by the model's value (real numpy arrays,
+    the real code, no patched numpy); the refuted obligation is confirmed when it evaluates to false there as well"""
+    done = 0
+    seen = set()
+    for o in ex.obligations:
+        if o.get("status") != "refuted" or o.get("expect") != "proved" or not o.get("model") or o["name"] in seen:
+            continue
+        if done >= limit:
+            break
+        seen.add(o["name"])
+        done += 1
+        ce = sym.ConcreteExplorer(o["model"], unit=ex.unit)
+        try:
+            import warnings
+            with warnings.catch_warnings():
+                warnings.simplefilter("ignore")
+                ce.run(lambda: body(ce, shape, tag))
+        except Exception as x:        # the native run left the path of the model (rounding) or the harness cannot run concretely
+            o["native"] = dict(confirmed=False, why="concrete replay stopped: %s: %s" % (type(x).__name__, str(x)[:200]))
+            continue
+        val = ce.results.get(o["name"])
+        if val is False and not ce.assumption_broken:
+            o["native"] = dict(confirmed=True, inputs=ce.inputs)
+        else:
+            o["native"] = dict(confirmed=False, why="obligation evaluates to %r on the model's values%s" % (
+                val, "; an assumption does not hold on them: " + ce.assumption_broken if ce.assumption_broken else ""))
 
 
 def eq(a, b):
